@@ -8,6 +8,7 @@ from __future__ import annotations
 import copy
 import json
 import math
+import re
 import traceback
 
 STR_NAN = '__NAN__'
@@ -525,7 +526,21 @@ class Encoder:
             return [0, 0]
         return [self.ccode(f, v), self.ccode(f, strform(v))]
 
-    def out(self, f, lab):
+    _INTERVAL = re.compile(r'^(?:(\S+) < )?x(?: <= (\S+))?$')
+
+    def _bound_code(self, f, txt, bounds):
+        """text of an interval bound -> code of the one boundary of the state that prints like it
+        (-2: none does, -3: several do)"""
+        m = re.fullmatch(r'-?\d\.(\d+)e[+-]\d+', txt)
+        if not m:
+            return None      # not a number ("x <= nan" is the label of a feature left with one group): identity only
+        p = len(m.group(1))
+        hits = [b for b in bounds if f'{b:.{p}e}'.strip() == txt]
+        if len(hits) != 1:
+            return -2 if not hits else -3
+        return self.rank[f][float(hits[0])]
+
+    def out(self, f, lab, bounds=None):
         import numpy as np
         if isnan(lab):
             return [0, 0]
@@ -543,8 +558,23 @@ class Encoder:
                 tbl = self.quali_codes.get(f, {})
                 if lab in tbl:
                     return [2, tbl[lab]]
+            m = self._INTERVAL.match(lab) if bounds is not None else None
+            if m and (m.group(1) or m.group(2)):
+                lo = -INF_CODE if m.group(1) is None else self._bound_code(f, m.group(1), bounds)
+                hi = INF_CODE if m.group(2) is None else self._bound_code(f, m.group(2), bounds)
+                if lo is not None and hi is not None:
+                    return [3, self._intern(('lab', lab)), lo, hi]
             return [3, self._intern(('lab', lab))]
         return [4, 0]
+
+    def _bounds(self, ev, f):
+        """finite boundaries of quantitative feature f in the state logged with the event"""
+        if self.h.feature_kinds.get(f) != 'quanti':
+            return None
+        for ft in ev['st']['feats']:
+            if ft['name'] == f:
+                return [float(v) for v in ft['order'] if is_number(v) and not isnan(v) and math.isfinite(float(v))]
+        return None
 
     def st(self, st):
         feats = []
@@ -589,7 +619,7 @@ class Encoder:
                     # a fitted column is missing from the frame: the call is judged as a malformed call elsewhere
                     e['ev'] = 'skip'
                 e['frame'] = [[self.cell(f, v) for v in (fr.get(f) or [])] for f in fnames]
-                e['out'] = ([[self.out(f, v) for v in ev['out_raw'][f]] for f in fnames] if ev.get('out_raw') else [[] for _ in fnames])
+                e['out'] = ([[self.out(f, v, self._bounds(ev, f)) for v in ev['out_raw'][f]] for f in fnames] if ev.get('out_raw') else [[] for _ in fnames])
                 e['ranking'] = [self._ranking(f) for f in fnames]
                 seen = ev['seen']
                 e['seen'] = [bool(seen)] * len(fnames) if not isinstance(seen, dict) else [bool(seen.get(f)) for f in fnames]
